@@ -599,7 +599,33 @@ class TermMixin:
             if r is not None:
                 return r
         lp, largs = self.resolve_local(f)
-        # contracts first (also for selected local functions)
+        if lp is None and f["trait"] and f["self_ty"] is not None and self.T.t(f["self_ty"])["k"] == "dyn" and args:
+            # dynamic dispatch: resolved through the concrete type of the value behind the receiver on this path
+            rcv = args[0]
+            try:
+                pv = self.M.read_path(st, rcv.loc, rcv.path) if isinstance(rcv, Ref) else None
+            except Exception:
+                pv = None
+            if isinstance(pv, Struct) and isinstance(pv.ty, int):
+                p = self.impl_index.get((f["trait"], self.T.t(pv.ty)["s"], f["name"]))
+                if p and p in self.F.bodies:
+                    lp, largs = p, ()
+            if lp is None and not f["trait"].startswith(("std::", "core::", "alloc::")):
+                # receiver not known on this path: any impl of the (crate-local) trait may be the target
+                cands = sorted(pp for (tr, _s, nm), pp in self.impl_index.items() if tr == f["trait"] and nm == f["name"] and pp in self.F.bodies)
+                if cands and len(cands) <= 8 and self.contracts.lookup(f["path"]) is None and (self.on_call is None or True):
+                    outs = []
+                    for pp in cands:
+                        if pp in self.cuts or (self.inline_filter is not None and not self.inline_filter(pp)):
+                            outs = None
+                            break
+                        r = self.inline(st.fork(), fr, self.F.body(pp), {}, args, site)
+                        if r is None:
+                            outs = None
+                            break
+                        outs.extend(r)
+                    if outs is not None:
+                        return outs
         for key in ([lp] if lp else []) + [f["resolved"], f["path"]]:
             if not key:
                 continue
